@@ -486,7 +486,10 @@ func init() {
 	reg(C+"PairPrefix", func(e *Exec, fn *ssa.Function, a []Value) Value {
 		return &PairVal{a: a[0], hasB: false}
 	})
-	rangeOf := func(e *Exec, recv Value) (*RangeVal, Ptr) {
+	rangeOf := func(e *Exec, recv Value) (*RangeVal, Value) {
+		if r, isR := recv.(*RangeVal); isR {
+			return r, r // *PairRange built by NewPrefixedPairRange / NewPrefixUntilPairRange
+		}
 		p, ok := recv.(Ptr)
 		if !ok || p == nil {
 			panic(abortRun{kind: "unsupported", msg: "range builder on " + describe(recv)})
